@@ -38,6 +38,7 @@ type Sim struct {
 
 	strictKeysend bool
 	provoke       bool // this run may walk into known lnd findings
+	windowArm     bool // deliveries may have time pass inside the interceptor call
 	ioEvent       bool // the event being generated carries an injected store fault
 	burstAmp      map[int]bool
 	acctPrev      map[uint64]invoices.ContractState
@@ -118,6 +119,8 @@ func Run(r *simcore.Run) {
 	case "pair":
 		s.pair = true
 	}
+	// appended last so that older tapes keep their meaning
+	s.windowArm = t.CfgDraw(2) == 1
 	if r.Tier == "thorough" {
 		s.k.MaxSteps += 20
 	}
@@ -228,8 +231,10 @@ func (s *Sim) step() {
 		ev.Subs = []SubCmd{s.genAddInvoice()}
 	case "htlc":
 		ev.Subs = []SubCmd{s.genHtlcCmd(-1)}
+		s.maybeWindow(ev)
 	case "replay":
 		ev.Subs = []SubCmd{s.genReplay(nil)}
+		s.maybeWindow(ev)
 	case "settle":
 		ev.Subs = []SubCmd{s.genSettle()}
 	case "cancel":
@@ -350,6 +355,10 @@ func (s *Sim) step() {
 		s.now = s.now.Add(dur)
 		r.Add("sim_seconds", int64(dur/time.Second))
 	}
+	if ev.Windowed {
+		s.now = s.now.Add(ev.Subs[0].Window)
+		r.Add("sim_seconds", int64(ev.Subs[0].Window/time.Second))
+	}
 	if base == "block" {
 		s.height += dh
 		r.Add("sim_blocks", int64(dh))
@@ -363,12 +372,24 @@ func (s *Sim) step() {
 	s.account(ev, obss[0])
 }
 
+// maybeWindow turns a single delivery into one during which time passes while
+// the call sits in the HTLC interceptor.
+func (s *Sim) maybeWindow(ev *Event) {
+	if !s.windowArm || ev.Subs[0].H == nil || s.r.Draw(3) != 0 {
+		return
+	}
+	half := (s.cfg.HoldDuration - 500*time.Millisecond) / 2
+	durs := []time.Duration{s.cfg.HoldDuration + time.Second, half, 3 * time.Second, s.cfg.HoldDuration + time.Second}
+	ev.Subs[0].Window = durs[s.r.Draw(len(durs))]
+	ev.Windowed = true
+}
+
 func describe(c *SubCmd) string {
 	switch c.Kind {
 	case "htlc":
-		return fmt.Sprintf("deliver %s at height %d%s", c.H, c.Height, csNote(c.CancelSet))
+		return fmt.Sprintf("deliver %s at height %d%s%s", c.H, c.Height, csNote(c.CancelSet), winNote(c.Window))
 	case "replay":
-		return fmt.Sprintf("REPLAY %s at height %d%s", c.H, c.Height, csNote(c.CancelSet))
+		return fmt.Sprintf("REPLAY %s at height %d%s%s", c.H, c.Height, csNote(c.CancelSet), winNote(c.Window))
 	case "addinv":
 		return "AddInvoice " + c.Inv.String()
 	case "settle":
@@ -379,6 +400,13 @@ func describe(c *SubCmd) string {
 		return "nothing to replay"
 	}
 	return c.Kind
+}
+
+func winNote(d time.Duration) string {
+	if d > 0 {
+		return fmt.Sprintf(" [+%v pass while the call sits in the interceptor]", d)
+	}
+	return ""
 }
 
 func csNote(b bool) string {
@@ -392,6 +420,17 @@ func csNote(b bool) string {
 func (s *Sim) exec(w *World, c *SubCmd) SubResult {
 	switch c.Kind {
 	case "htlc", "replay":
+		if c.Window > 0 {
+			v, n := w.NotifyWindow(c.H, c.Height, c.CancelSet, c.Window)
+			s.r.Count("fault_time_passes_inside_interceptor_call")
+			switch {
+			case n < 0:
+				s.r.Count("probe_window_call_refused_before_interceptor")
+			case n > 0:
+				s.r.Add("probe_window_hold_timers_fired_inside_call", int64(n))
+			}
+			return SubResult{V: v}
+		}
 		return SubResult{V: w.Notify(c.H, c.Height, c.CancelSet)}
 	case "noop":
 		return SubResult{}
